@@ -9,8 +9,10 @@ PROP = 'C02'
 COQ_TARGETS = ['Props/C02.vo'] + convprop.CONV_TARGETS
 GEN = convprop.MODEL_TABLES
 
-REPS = {'none': None, 'bool': True, 'int': 5, 'float': 2.5, 'complex': 1j, 'str': 'x', 'bytes': b'x', 'bytearray': bytearray(b'x'),
-        'list': [5], 'tuple': (5,), 'dict': {'x': 5}}
+# several representatives per kind: besides an ordinary one, the values that Python's == identifies with the members of
+# the literal and enum targets below (5.0 == 5, (1+0j) == 1 == True, 0 == False) -- a lookup by == must not let them through
+REPS = {'none': [None], 'bool': [True, False], 'int': [5, 1, 0], 'float': [2.5, 5.0, 1.0, 0.0], 'complex': [1j, 5 + 0j, 1 + 0j],
+        'str': ['x'], 'bytes': [b'x'], 'bytearray': [bytearray(b'x')], 'list': [[5]], 'tuple': [(5,)], 'dict': [{'x': 5}]}
 NUM = {'bool', 'int', 'float', 'complex'}
 # the matrix, from the property text (independent of Coq's strict_ok; both are compared with pane)
 ACCEPT = {
@@ -18,8 +20,11 @@ ACCEPT = {
     'str': {'str'}, 'bytes': {'bytes', 'bytearray'}, 'bytearray': {'bytes', 'bytearray'}, 'none': {'none'},
     'list': {'list', 'tuple'}, 'vtuple': {'list', 'tuple'}, 'tuple1': {'list', 'tuple'}, 'set': {'list', 'tuple'},
     'dict': {'dict'}, 'struct_class': {'dict'}, 'tuple_class': {'list', 'tuple'},
-    'lit5': {'int'}, 'litx': {'str'}, 'enum_int': {'int'}, 'enum_str': {'str'},
+    'lit5': {'int'}, 'litx': {'str'}, 'enum_int': {'int', 'bool'}, 'enum_str': {'str'},      # an enum reads its value as the value type does
+    'lit1': {'int'}, 'litTrue': {'bool'}, 'enum_bool': {'bool'}, 'enum_one': {'int', 'bool'},
 }
+# targets that accept only some values of an accepted kind: (target, kind) -> the accepted representatives
+MEMBERS = {'lit5': [5], 'litx': ['x'], 'enum_int': [5], 'enum_str': ['x'], 'lit1': [1], 'litTrue': [True], 'enum_bool': [True, False], 'enum_one': [1, 0]}
 
 
 def targets():
@@ -32,6 +37,9 @@ def targets():
         'dict': ('dict', ('scalar', 'str'), ('scalar', 'int')), 'struct_class': ('class', struct_cls), 'tuple_class': ('class', tuple_cls),
         'lit5': ('literal', [5]), 'litx': ('literal', ['x']), 'enum_int': ('enum', terms.fresh_name('EI'), [('A', 5), ('B', 6)]),
         'enum_str': ('enum', terms.fresh_name('ES'), [('A', 'x'), ('B', 'y')]),
+        'lit1': ('literal', [1]), 'litTrue': ('literal', [True]),
+        'enum_bool': ('enum', terms.fresh_name('EB'), [('ON', True), ('OFF', False)]),
+        'enum_one': ('enum', terms.fresh_name('EO'), [('ONE', 1), ('ZERO', 0)]),
     })
     return t
 
@@ -54,7 +62,8 @@ def contexts(tt, v):
 def matrix_cases(rng):
     out = []
     for tname, tt in targets().items():
-        for kname, v in REPS.items():
+        for kname, vs in REPS.items():
+          for v in vs:
             for label, term, val in contexts(tt, v):
                 try:
                     b = terms.build(term, rng)
@@ -62,6 +71,11 @@ def matrix_cases(rng):
                     continue
                 c = convcases.Case(term, b, val, 'matrix')
                 want = kname in ACCEPT[tname]
+                if want and tname in MEMBERS:
+                    if tname.startswith('enum'):
+                        want = any(m == v for m in MEMBERS[tname])       # after the value type's own (kind-strict) conversion
+                    else:
+                        want = any(type(m) is type(v) and m == v for m in MEMBERS[tname])
                 if label == 'optional' and kname == 'none':
                     want = True
                 c.extra['cell'] = (tname, kname, label, want)
@@ -91,8 +105,9 @@ def monitor(c):
 
 
 def run(ctx, out):
-    out.rule = ('EXHAUSTIVE: 19 targets (7 scalars, None, list, variadic tuple, fixed tuple, set, mapping, struct dataclass, tuple-layout '
-                'dataclass, int/str literal, int/str enum) x 11 value kinds x 8 embedding contexts (top, list element, mapping value, '
+    out.rule = ('EXHAUSTIVE: 23 targets (7 scalars, None, list, variadic tuple, fixed tuple, set, mapping, struct dataclass, tuple-layout '
+                'dataclass, int/str/bool literals, int/str/bool enums) x 11 value kinds (22 representatives, including the numbers that == '
+                'identifies with literal and enum members) x 8 embedding contexts (top, list element, mapping value, '
                 'tuple slot, union member, Optional, dataclass field, struct field); every cell compared with the matrix written from '
                 'the property text and, through corr_convert, with the Coq model. The random stream of the other checks is not used.')
     out.exhaustive = True
